@@ -346,7 +346,7 @@ def show_val(v):
 def run(chk):
     cfg = "StepRegistry_MC_quick.cfg" if chk.quick() else "StepRegistry_MC_thorough.cfg"
     workers = int(os.environ.get("VERIF_WORKERS") or 16)
-    r = chk.tlc("StepRegistry_MC", cfg, timeout=400 if chk.quick() else 850, workers=workers, env={"C11_SEED": chk.seed})
+    r = chk.tlc("StepRegistry_MC", cfg, timeout=1200 if chk.quick() else 2400, workers=workers, env={"C11_SEED": chk.seed})
     for name in r.violated:
         chk.violation("C11.design." + name, "design:%s" % name, "TLC: invariant %s violated in StepRegistry_MC (%s)" % (name, cfg))
     cases, seen = [], set()
